@@ -68,7 +68,7 @@ def main(argv):
         if drv:
             drv.close()
 
-    checker_cmd = f"cd lean && lake build CbiVerif.Props.{prop} && lake env lean <#print axioms of each theorem in obligations.json[{prop}]>" + (
+    checker_cmd = f"cd lean && lake build CbiVerif.Props.{prop} && lake env lean <#print axioms of each theorem in obligations/{prop}.json>" + (
         " && lake env leanchecker <modules>" if ctx.thorough() else ""
     )
     core.write_evidence(ctx, thms, discharged, axioms, problems, checker_cmd)
